@@ -21,6 +21,9 @@
 (* Variant switches document the two defects found on the pinned commit:   *)
 (*   StopWakes = FALSE : stop() only clears `go`; a player blocked in      *)
 (*                       go.wait() is never woken (close() hangs)          *)
+(*   RunFinally = FALSE: an exception in the run loop (Faults) kills the   *)
+(*                       thread before its destructor-like step: it stays  *)
+(*                       registered and close() spins on it forever        *)
 (*   JoinAll   = FALSE : close() joins only threads still registered, so   *)
 (*                       it can return while a self-deregistered player    *)
 (*                       has not ended yet.  TRUE: thread_finished() moves *)
@@ -33,7 +36,9 @@ CONSTANTS NP,          \* number of AudioThread objects that may be created
           MaxCtl,      \* control calls issued before close
           Wait,        \* AudioIO(wait=...)
           StopWakes,   \* variant: stop() wakes a paused player and run re-tests halting
-          JoinAll      \* variant: close() also joins players that deregistered themselves
+          JoinAll,     \* variant: close() also joins players that deregistered themselves
+          Faults,      \* fault model: a device write (or the audio iterable) may raise, once per player
+          RunFinally   \* variant: run() performs its destructor-like step in a `finally` clause
 
 Players == 1..NP
 MainId  == 0
@@ -57,7 +62,8 @@ variables
   closed = FALSE,                              \* close() has returned
   playRaised = FALSE,                          \* play() after close raised
   aliveAtClose = {},                           \* players alive when close() returned
-  openAtClose = {};                            \* device streams not closed when close() returned
+  openAtClose = {},                            \* device streams not closed when close() returned
+  faulted = [t \in Players |-> FALSE];         \* the player's run loop was left by an exception
 
 define {
   Started      == {t \in Players : started[t]}
@@ -155,9 +161,15 @@ process (Player \in Players)
 {
 p0: await alive[self];                                   \* run() begins
 p1: while (idx < NChunks[self]) {                        \* for chunk in chunks(self.audio, ...):
-p1w:  idx := idx + 1;
-      if (sstate[self] # "open") { badWrite := TRUE };
-      written[self] := Append(written[self], idx);       \*   write_stream(st, chunk, ...)
+p1w:  either {
+        idx := idx + 1;
+        if (sstate[self] # "open") { badWrite := TRUE };
+        written[self] := Append(written[self], idx);     \*   write_stream(st, chunk, ...)
+      } or {                                             \*   ... raises (device error, audio iterable raising)
+        await Faults /\ ~faulted[self];
+        faulted[self] := TRUE;
+        if (RunFinally) { goto p8 } else { goto p13 };   \*   as pinned: the thread dies, nothing is cleaned up
+      };
 p1h:  if (StopWakes /\ halting[self]) { goto p3 };       \*   (fixed) if self.halting or ...
 p2:   if (go[self]) { goto p1 };                         \*   if not self.go.is_set():
 p3:   sstate[self] := "stopped";                         \*     self.stream.stop_stream()
@@ -183,7 +195,7 @@ p13: alive[self] := FALSE;                               \* run() returns, the t
 \* BEGIN TRANSLATION
 VARIABLES pc, mgrLock, haltLock, thrLock, go, halting, finished, threads, 
           finishing, started, alive, written, sstate, terminated, badWrite, 
-          nctl, closed, playRaised, aliveAtClose, openAtClose
+          nctl, closed, playRaised, aliveAtClose, openAtClose, faulted
 
 (* define statement *)
 Started      == {t \in Players : started[t]}
@@ -193,8 +205,8 @@ VARIABLES tgt, th, tojoin, idx
 
 vars == << pc, mgrLock, haltLock, thrLock, go, halting, finished, threads, 
            finishing, started, alive, written, sstate, terminated, badWrite, 
-           nctl, closed, playRaised, aliveAtClose, openAtClose, tgt, th, 
-           tojoin, idx >>
+           nctl, closed, playRaised, aliveAtClose, openAtClose, faulted, tgt, 
+           th, tojoin, idx >>
 
 ProcSet == {MainId} \cup (Players)
 
@@ -218,6 +230,7 @@ Init == (* Global variables *)
         /\ playRaised = FALSE
         /\ aliveAtClose = {}
         /\ openAtClose = {}
+        /\ faulted = [t \in Players |-> FALSE]
         (* Process Main *)
         /\ tgt = 0
         /\ th = 0
@@ -257,7 +270,7 @@ ctl == /\ pc[MainId] = "ctl"
        /\ UNCHANGED << mgrLock, haltLock, thrLock, go, halting, finished, 
                        threads, finishing, started, alive, written, sstate, 
                        terminated, badWrite, closed, playRaised, aliveAtClose, 
-                       openAtClose, th, tojoin, idx >>
+                       openAtClose, faulted, th, tojoin, idx >>
 
 mp1 == /\ pc[MainId] = "mp1"
        /\ mgrLock = -1
@@ -266,7 +279,7 @@ mp1 == /\ pc[MainId] = "mp1"
        /\ UNCHANGED << haltLock, thrLock, go, halting, finished, threads, 
                        finishing, started, alive, written, sstate, terminated, 
                        badWrite, nctl, closed, playRaised, aliveAtClose, 
-                       openAtClose, tgt, th, tojoin, idx >>
+                       openAtClose, faulted, tgt, th, tojoin, idx >>
 
 mp2 == /\ pc[MainId] = "mp2"
        /\ IF finished
@@ -275,7 +288,8 @@ mp2 == /\ pc[MainId] = "mp2"
        /\ UNCHANGED << mgrLock, haltLock, thrLock, go, halting, finished, 
                        threads, finishing, started, alive, written, sstate, 
                        terminated, badWrite, nctl, closed, playRaised, 
-                       aliveAtClose, openAtClose, tgt, th, tojoin, idx >>
+                       aliveAtClose, openAtClose, faulted, tgt, th, tojoin, 
+                       idx >>
 
 mpE == /\ pc[MainId] = "mpE"
        /\ mgrLock' = -1
@@ -283,8 +297,8 @@ mpE == /\ pc[MainId] = "mpE"
        /\ pc' = [pc EXCEPT ![MainId] = "ctl"]
        /\ UNCHANGED << haltLock, thrLock, go, halting, finished, threads, 
                        finishing, started, alive, written, sstate, terminated, 
-                       badWrite, nctl, closed, aliveAtClose, openAtClose, tgt, 
-                       th, tojoin, idx >>
+                       badWrite, nctl, closed, aliveAtClose, openAtClose, 
+                       faulted, tgt, th, tojoin, idx >>
 
 mp3 == /\ pc[MainId] = "mp3"
        /\ sstate' = [sstate EXCEPT ![tgt] = "open"]
@@ -292,7 +306,7 @@ mp3 == /\ pc[MainId] = "mp3"
        /\ UNCHANGED << mgrLock, haltLock, thrLock, go, halting, finished, 
                        threads, finishing, started, alive, written, terminated, 
                        badWrite, nctl, closed, playRaised, aliveAtClose, 
-                       openAtClose, tgt, th, tojoin, idx >>
+                       openAtClose, faulted, tgt, th, tojoin, idx >>
 
 mp4 == /\ pc[MainId] = "mp4"
        /\ threads' = Append(threads, tgt)
@@ -300,7 +314,7 @@ mp4 == /\ pc[MainId] = "mp4"
        /\ UNCHANGED << mgrLock, haltLock, thrLock, go, halting, finished, 
                        finishing, started, alive, written, sstate, terminated, 
                        badWrite, nctl, closed, playRaised, aliveAtClose, 
-                       openAtClose, tgt, th, tojoin, idx >>
+                       openAtClose, faulted, tgt, th, tojoin, idx >>
 
 mp5 == /\ pc[MainId] = "mp5"
        /\ started' = [started EXCEPT ![tgt] = TRUE]
@@ -309,7 +323,7 @@ mp5 == /\ pc[MainId] = "mp5"
        /\ UNCHANGED << mgrLock, haltLock, thrLock, go, halting, finished, 
                        threads, finishing, written, sstate, terminated, 
                        badWrite, nctl, closed, playRaised, aliveAtClose, 
-                       openAtClose, tgt, th, tojoin, idx >>
+                       openAtClose, faulted, tgt, th, tojoin, idx >>
 
 mp6 == /\ pc[MainId] = "mp6"
        /\ mgrLock' = -1
@@ -317,7 +331,7 @@ mp6 == /\ pc[MainId] = "mp6"
        /\ UNCHANGED << haltLock, thrLock, go, halting, finished, threads, 
                        finishing, started, alive, written, sstate, terminated, 
                        badWrite, nctl, closed, playRaised, aliveAtClose, 
-                       openAtClose, tgt, th, tojoin, idx >>
+                       openAtClose, faulted, tgt, th, tojoin, idx >>
 
 pa1 == /\ pc[MainId] = "pa1"
        /\ (thrLock[tgt]) = -1
@@ -326,7 +340,7 @@ pa1 == /\ pc[MainId] = "pa1"
        /\ UNCHANGED << mgrLock, haltLock, go, halting, finished, threads, 
                        finishing, started, alive, written, sstate, terminated, 
                        badWrite, nctl, closed, playRaised, aliveAtClose, 
-                       openAtClose, tgt, th, tojoin, idx >>
+                       openAtClose, faulted, tgt, th, tojoin, idx >>
 
 pa2 == /\ pc[MainId] = "pa2"
        /\ go' = [go EXCEPT ![tgt] = FALSE]
@@ -334,7 +348,7 @@ pa2 == /\ pc[MainId] = "pa2"
        /\ UNCHANGED << mgrLock, haltLock, thrLock, halting, finished, threads, 
                        finishing, started, alive, written, sstate, terminated, 
                        badWrite, nctl, closed, playRaised, aliveAtClose, 
-                       openAtClose, tgt, th, tojoin, idx >>
+                       openAtClose, faulted, tgt, th, tojoin, idx >>
 
 pa3 == /\ pc[MainId] = "pa3"
        /\ thrLock' = [thrLock EXCEPT ![tgt] = -1]
@@ -342,7 +356,7 @@ pa3 == /\ pc[MainId] = "pa3"
        /\ UNCHANGED << mgrLock, haltLock, go, halting, finished, threads, 
                        finishing, started, alive, written, sstate, terminated, 
                        badWrite, nctl, closed, playRaised, aliveAtClose, 
-                       openAtClose, tgt, th, tojoin, idx >>
+                       openAtClose, faulted, tgt, th, tojoin, idx >>
 
 re1 == /\ pc[MainId] = "re1"
        /\ (thrLock[tgt]) = -1
@@ -351,7 +365,7 @@ re1 == /\ pc[MainId] = "re1"
        /\ UNCHANGED << mgrLock, haltLock, go, halting, finished, threads, 
                        finishing, started, alive, written, sstate, terminated, 
                        badWrite, nctl, closed, playRaised, aliveAtClose, 
-                       openAtClose, tgt, th, tojoin, idx >>
+                       openAtClose, faulted, tgt, th, tojoin, idx >>
 
 re2 == /\ pc[MainId] = "re2"
        /\ go' = [go EXCEPT ![tgt] = TRUE]
@@ -359,7 +373,7 @@ re2 == /\ pc[MainId] = "re2"
        /\ UNCHANGED << mgrLock, haltLock, thrLock, halting, finished, threads, 
                        finishing, started, alive, written, sstate, terminated, 
                        badWrite, nctl, closed, playRaised, aliveAtClose, 
-                       openAtClose, tgt, th, tojoin, idx >>
+                       openAtClose, faulted, tgt, th, tojoin, idx >>
 
 re3 == /\ pc[MainId] = "re3"
        /\ thrLock' = [thrLock EXCEPT ![tgt] = -1]
@@ -367,7 +381,7 @@ re3 == /\ pc[MainId] = "re3"
        /\ UNCHANGED << mgrLock, haltLock, go, halting, finished, threads, 
                        finishing, started, alive, written, sstate, terminated, 
                        badWrite, nctl, closed, playRaised, aliveAtClose, 
-                       openAtClose, tgt, th, tojoin, idx >>
+                       openAtClose, faulted, tgt, th, tojoin, idx >>
 
 st1 == /\ pc[MainId] = "st1"
        /\ (thrLock[tgt]) = -1
@@ -376,7 +390,7 @@ st1 == /\ pc[MainId] = "st1"
        /\ UNCHANGED << mgrLock, haltLock, go, halting, finished, threads, 
                        finishing, started, alive, written, sstate, terminated, 
                        badWrite, nctl, closed, playRaised, aliveAtClose, 
-                       openAtClose, tgt, th, tojoin, idx >>
+                       openAtClose, faulted, tgt, th, tojoin, idx >>
 
 st2 == /\ pc[MainId] = "st2"
        /\ halting' = [halting EXCEPT ![tgt] = TRUE]
@@ -384,7 +398,7 @@ st2 == /\ pc[MainId] = "st2"
        /\ UNCHANGED << mgrLock, haltLock, thrLock, go, finished, threads, 
                        finishing, started, alive, written, sstate, terminated, 
                        badWrite, nctl, closed, playRaised, aliveAtClose, 
-                       openAtClose, tgt, th, tojoin, idx >>
+                       openAtClose, faulted, tgt, th, tojoin, idx >>
 
 st3 == /\ pc[MainId] = "st3"
        /\ IF StopWakes
@@ -394,7 +408,7 @@ st3 == /\ pc[MainId] = "st3"
        /\ UNCHANGED << mgrLock, haltLock, thrLock, halting, finished, threads, 
                        finishing, started, alive, written, sstate, terminated, 
                        badWrite, nctl, closed, playRaised, aliveAtClose, 
-                       openAtClose, tgt, th, tojoin, idx >>
+                       openAtClose, faulted, tgt, th, tojoin, idx >>
 
 st4 == /\ pc[MainId] = "st4"
        /\ thrLock' = [thrLock EXCEPT ![tgt] = -1]
@@ -402,7 +416,7 @@ st4 == /\ pc[MainId] = "st4"
        /\ UNCHANGED << mgrLock, haltLock, go, halting, finished, threads, 
                        finishing, started, alive, written, sstate, terminated, 
                        badWrite, nctl, closed, playRaised, aliveAtClose, 
-                       openAtClose, tgt, th, tojoin, idx >>
+                       openAtClose, faulted, tgt, th, tojoin, idx >>
 
 c0 == /\ pc[MainId] = "c0"
       /\ haltLock = -1
@@ -411,7 +425,7 @@ c0 == /\ pc[MainId] = "c0"
       /\ UNCHANGED << mgrLock, thrLock, go, halting, finished, threads, 
                       finishing, started, alive, written, sstate, terminated, 
                       badWrite, nctl, closed, playRaised, aliveAtClose, 
-                      openAtClose, tgt, th, tojoin, idx >>
+                      openAtClose, faulted, tgt, th, tojoin, idx >>
 
 c1 == /\ pc[MainId] = "c1"
       /\ IF ~finished
@@ -422,7 +436,7 @@ c1 == /\ pc[MainId] = "c1"
       /\ UNCHANGED << mgrLock, haltLock, thrLock, go, halting, threads, 
                       finishing, started, alive, written, sstate, terminated, 
                       badWrite, nctl, closed, playRaised, aliveAtClose, 
-                      openAtClose, tgt, th, tojoin, idx >>
+                      openAtClose, faulted, tgt, th, tojoin, idx >>
 
 c2 == /\ pc[MainId] = "c2"
       /\ mgrLock = -1
@@ -431,7 +445,7 @@ c2 == /\ pc[MainId] = "c2"
       /\ UNCHANGED << haltLock, thrLock, go, halting, finished, threads, 
                       finishing, started, alive, written, sstate, terminated, 
                       badWrite, nctl, closed, playRaised, aliveAtClose, 
-                      openAtClose, tgt, th, tojoin, idx >>
+                      openAtClose, faulted, tgt, th, tojoin, idx >>
 
 c3 == /\ pc[MainId] = "c3"
       /\ IF threads = <<>>
@@ -442,7 +456,7 @@ c3 == /\ pc[MainId] = "c3"
       /\ UNCHANGED << mgrLock, haltLock, thrLock, go, halting, finished, 
                       threads, finishing, started, alive, written, sstate, 
                       terminated, badWrite, nctl, closed, playRaised, 
-                      aliveAtClose, openAtClose, tgt, tojoin, idx >>
+                      aliveAtClose, openAtClose, faulted, tgt, tojoin, idx >>
 
 c3r == /\ pc[MainId] = "c3r"
        /\ mgrLock' = -1
@@ -450,7 +464,7 @@ c3r == /\ pc[MainId] = "c3r"
        /\ UNCHANGED << haltLock, thrLock, go, halting, finished, threads, 
                        finishing, started, alive, written, sstate, terminated, 
                        badWrite, nctl, closed, playRaised, aliveAtClose, 
-                       openAtClose, tgt, th, tojoin, idx >>
+                       openAtClose, faulted, tgt, th, tojoin, idx >>
 
 c3s == /\ pc[MainId] = "c3s"
        /\ mgrLock' = -1
@@ -458,7 +472,7 @@ c3s == /\ pc[MainId] = "c3s"
        /\ UNCHANGED << haltLock, thrLock, go, halting, finished, threads, 
                        finishing, started, alive, written, sstate, terminated, 
                        badWrite, nctl, closed, playRaised, aliveAtClose, 
-                       openAtClose, tgt, th, tojoin, idx >>
+                       openAtClose, faulted, tgt, th, tojoin, idx >>
 
 c4 == /\ pc[MainId] = "c4"
       /\ IF ~Wait
@@ -467,7 +481,7 @@ c4 == /\ pc[MainId] = "c4"
       /\ UNCHANGED << mgrLock, haltLock, thrLock, go, halting, finished, 
                       threads, finishing, started, alive, written, sstate, 
                       terminated, badWrite, nctl, closed, playRaised, 
-                      aliveAtClose, openAtClose, tgt, th, tojoin, idx >>
+                      aliveAtClose, openAtClose, faulted, tgt, th, tojoin, idx >>
 
 cs1 == /\ pc[MainId] = "cs1"
        /\ (thrLock[th]) = -1
@@ -476,7 +490,7 @@ cs1 == /\ pc[MainId] = "cs1"
        /\ UNCHANGED << mgrLock, haltLock, go, halting, finished, threads, 
                        finishing, started, alive, written, sstate, terminated, 
                        badWrite, nctl, closed, playRaised, aliveAtClose, 
-                       openAtClose, tgt, th, tojoin, idx >>
+                       openAtClose, faulted, tgt, th, tojoin, idx >>
 
 cs2 == /\ pc[MainId] = "cs2"
        /\ halting' = [halting EXCEPT ![th] = TRUE]
@@ -484,7 +498,7 @@ cs2 == /\ pc[MainId] = "cs2"
        /\ UNCHANGED << mgrLock, haltLock, thrLock, go, finished, threads, 
                        finishing, started, alive, written, sstate, terminated, 
                        badWrite, nctl, closed, playRaised, aliveAtClose, 
-                       openAtClose, tgt, th, tojoin, idx >>
+                       openAtClose, faulted, tgt, th, tojoin, idx >>
 
 cs3 == /\ pc[MainId] = "cs3"
        /\ IF StopWakes
@@ -494,7 +508,7 @@ cs3 == /\ pc[MainId] = "cs3"
        /\ UNCHANGED << mgrLock, haltLock, thrLock, halting, finished, threads, 
                        finishing, started, alive, written, sstate, terminated, 
                        badWrite, nctl, closed, playRaised, aliveAtClose, 
-                       openAtClose, tgt, th, tojoin, idx >>
+                       openAtClose, faulted, tgt, th, tojoin, idx >>
 
 cs4 == /\ pc[MainId] = "cs4"
        /\ thrLock' = [thrLock EXCEPT ![th] = -1]
@@ -502,7 +516,7 @@ cs4 == /\ pc[MainId] = "cs4"
        /\ UNCHANGED << mgrLock, haltLock, go, halting, finished, threads, 
                        finishing, started, alive, written, sstate, terminated, 
                        badWrite, nctl, closed, playRaised, aliveAtClose, 
-                       openAtClose, tgt, th, tojoin, idx >>
+                       openAtClose, faulted, tgt, th, tojoin, idx >>
 
 c7 == /\ pc[MainId] = "c7"
       /\ ~alive[th]
@@ -510,7 +524,7 @@ c7 == /\ pc[MainId] = "c7"
       /\ UNCHANGED << mgrLock, haltLock, thrLock, go, halting, finished, 
                       threads, finishing, started, alive, written, sstate, 
                       terminated, badWrite, nctl, closed, playRaised, 
-                      aliveAtClose, openAtClose, tgt, th, tojoin, idx >>
+                      aliveAtClose, openAtClose, faulted, tgt, th, tojoin, idx >>
 
 c8 == /\ pc[MainId] = "c8"
       /\ tojoin' = IF JoinAll THEN finishing ELSE <<>>
@@ -518,7 +532,7 @@ c8 == /\ pc[MainId] = "c8"
       /\ UNCHANGED << mgrLock, haltLock, thrLock, go, halting, finished, 
                       threads, finishing, started, alive, written, sstate, 
                       terminated, badWrite, nctl, closed, playRaised, 
-                      aliveAtClose, openAtClose, tgt, th, idx >>
+                      aliveAtClose, openAtClose, faulted, tgt, th, idx >>
 
 c8a == /\ pc[MainId] = "c8a"
        /\ IF tojoin # <<>>
@@ -530,7 +544,7 @@ c8a == /\ pc[MainId] = "c8a"
        /\ UNCHANGED << mgrLock, haltLock, thrLock, go, halting, finished, 
                        threads, finishing, started, alive, written, sstate, 
                        terminated, badWrite, nctl, closed, playRaised, 
-                       aliveAtClose, openAtClose, tgt, idx >>
+                       aliveAtClose, openAtClose, faulted, tgt, idx >>
 
 c8j == /\ pc[MainId] = "c8j"
        /\ ~alive[th]
@@ -538,7 +552,8 @@ c8j == /\ pc[MainId] = "c8j"
        /\ UNCHANGED << mgrLock, haltLock, thrLock, go, halting, finished, 
                        threads, finishing, started, alive, written, sstate, 
                        terminated, badWrite, nctl, closed, playRaised, 
-                       aliveAtClose, openAtClose, tgt, th, tojoin, idx >>
+                       aliveAtClose, openAtClose, faulted, tgt, th, tojoin, 
+                       idx >>
 
 c9 == /\ pc[MainId] = "c9"
       /\ openAtClose' = {t \in Started : sstate[t] # "closed"}
@@ -546,8 +561,8 @@ c9 == /\ pc[MainId] = "c9"
       /\ pc' = [pc EXCEPT ![MainId] = "c10"]
       /\ UNCHANGED << mgrLock, haltLock, thrLock, go, halting, finished, 
                       threads, finishing, started, alive, written, sstate, 
-                      badWrite, nctl, closed, playRaised, aliveAtClose, tgt, 
-                      th, tojoin, idx >>
+                      badWrite, nctl, closed, playRaised, aliveAtClose, 
+                      faulted, tgt, th, tojoin, idx >>
 
 c10 == /\ pc[MainId] = "c10"
        /\ haltLock' = -1
@@ -556,8 +571,8 @@ c10 == /\ pc[MainId] = "c10"
        /\ pc' = [pc EXCEPT ![MainId] = "ap1"]
        /\ UNCHANGED << mgrLock, thrLock, go, halting, finished, threads, 
                        finishing, started, alive, written, sstate, terminated, 
-                       badWrite, nctl, playRaised, openAtClose, tgt, th, 
-                       tojoin, idx >>
+                       badWrite, nctl, playRaised, openAtClose, faulted, tgt, 
+                       th, tojoin, idx >>
 
 ap1 == /\ pc[MainId] = "ap1"
        /\ mgrLock = -1
@@ -566,7 +581,7 @@ ap1 == /\ pc[MainId] = "ap1"
        /\ UNCHANGED << haltLock, thrLock, go, halting, finished, threads, 
                        finishing, started, alive, written, sstate, terminated, 
                        badWrite, nctl, closed, playRaised, aliveAtClose, 
-                       openAtClose, tgt, th, tojoin, idx >>
+                       openAtClose, faulted, tgt, th, tojoin, idx >>
 
 ap2 == /\ pc[MainId] = "ap2"
        /\ IF finished
@@ -577,7 +592,7 @@ ap2 == /\ pc[MainId] = "ap2"
        /\ UNCHANGED << mgrLock, haltLock, thrLock, go, halting, finished, 
                        threads, finishing, started, alive, written, sstate, 
                        terminated, badWrite, nctl, closed, aliveAtClose, 
-                       openAtClose, tgt, th, tojoin, idx >>
+                       openAtClose, faulted, tgt, th, tojoin, idx >>
 
 ap3 == /\ pc[MainId] = "ap3"
        /\ mgrLock' = -1
@@ -585,7 +600,7 @@ ap3 == /\ pc[MainId] = "ap3"
        /\ UNCHANGED << haltLock, thrLock, go, halting, finished, threads, 
                        finishing, started, alive, written, sstate, terminated, 
                        badWrite, nctl, closed, playRaised, aliveAtClose, 
-                       openAtClose, tgt, th, tojoin, idx >>
+                       openAtClose, faulted, tgt, th, tojoin, idx >>
 
 Fin == /\ pc[MainId] = "Fin"
        /\ TRUE
@@ -593,7 +608,8 @@ Fin == /\ pc[MainId] = "Fin"
        /\ UNCHANGED << mgrLock, haltLock, thrLock, go, halting, finished, 
                        threads, finishing, started, alive, written, sstate, 
                        terminated, badWrite, nctl, closed, playRaised, 
-                       aliveAtClose, openAtClose, tgt, th, tojoin, idx >>
+                       aliveAtClose, openAtClose, faulted, tgt, th, tojoin, 
+                       idx >>
 
 Main == ctl \/ mp1 \/ mp2 \/ mpE \/ mp3 \/ mp4 \/ mp5 \/ mp6 \/ pa1 \/ pa2
            \/ pa3 \/ re1 \/ re2 \/ re3 \/ st1 \/ st2 \/ st3 \/ st4 \/ c0
@@ -607,8 +623,8 @@ p0(self) == /\ pc[self] = "p0"
             /\ UNCHANGED << mgrLock, haltLock, thrLock, go, halting, finished, 
                             threads, finishing, started, alive, written, 
                             sstate, terminated, badWrite, nctl, closed, 
-                            playRaised, aliveAtClose, openAtClose, tgt, th, 
-                            tojoin, idx >>
+                            playRaised, aliveAtClose, openAtClose, faulted, 
+                            tgt, th, tojoin, idx >>
 
 p1(self) == /\ pc[self] = "p1"
             /\ IF idx[self] < NChunks[self]
@@ -617,17 +633,24 @@ p1(self) == /\ pc[self] = "p1"
             /\ UNCHANGED << mgrLock, haltLock, thrLock, go, halting, finished, 
                             threads, finishing, started, alive, written, 
                             sstate, terminated, badWrite, nctl, closed, 
-                            playRaised, aliveAtClose, openAtClose, tgt, th, 
-                            tojoin, idx >>
+                            playRaised, aliveAtClose, openAtClose, faulted, 
+                            tgt, th, tojoin, idx >>
 
 p1w(self) == /\ pc[self] = "p1w"
-             /\ idx' = [idx EXCEPT ![self] = idx[self] + 1]
-             /\ IF sstate[self] # "open"
-                   THEN /\ badWrite' = TRUE
-                   ELSE /\ TRUE
-                        /\ UNCHANGED badWrite
-             /\ written' = [written EXCEPT ![self] = Append(written[self], idx'[self])]
-             /\ pc' = [pc EXCEPT ![self] = "p1h"]
+             /\ \/ /\ idx' = [idx EXCEPT ![self] = idx[self] + 1]
+                   /\ IF sstate[self] # "open"
+                         THEN /\ badWrite' = TRUE
+                         ELSE /\ TRUE
+                              /\ UNCHANGED badWrite
+                   /\ written' = [written EXCEPT ![self] = Append(written[self], idx'[self])]
+                   /\ pc' = [pc EXCEPT ![self] = "p1h"]
+                   /\ UNCHANGED faulted
+                \/ /\ Faults /\ ~faulted[self]
+                   /\ faulted' = [faulted EXCEPT ![self] = TRUE]
+                   /\ IF RunFinally
+                         THEN /\ pc' = [pc EXCEPT ![self] = "p8"]
+                         ELSE /\ pc' = [pc EXCEPT ![self] = "p13"]
+                   /\ UNCHANGED <<written, badWrite, idx>>
              /\ UNCHANGED << mgrLock, haltLock, thrLock, go, halting, finished, 
                              threads, finishing, started, alive, sstate, 
                              terminated, nctl, closed, playRaised, 
@@ -640,8 +663,8 @@ p1h(self) == /\ pc[self] = "p1h"
              /\ UNCHANGED << mgrLock, haltLock, thrLock, go, halting, finished, 
                              threads, finishing, started, alive, written, 
                              sstate, terminated, badWrite, nctl, closed, 
-                             playRaised, aliveAtClose, openAtClose, tgt, th, 
-                             tojoin, idx >>
+                             playRaised, aliveAtClose, openAtClose, faulted, 
+                             tgt, th, tojoin, idx >>
 
 p2(self) == /\ pc[self] = "p2"
             /\ IF go[self]
@@ -650,8 +673,8 @@ p2(self) == /\ pc[self] = "p2"
             /\ UNCHANGED << mgrLock, haltLock, thrLock, go, halting, finished, 
                             threads, finishing, started, alive, written, 
                             sstate, terminated, badWrite, nctl, closed, 
-                            playRaised, aliveAtClose, openAtClose, tgt, th, 
-                            tojoin, idx >>
+                            playRaised, aliveAtClose, openAtClose, faulted, 
+                            tgt, th, tojoin, idx >>
 
 p3(self) == /\ pc[self] = "p3"
             /\ sstate' = [sstate EXCEPT ![self] = "stopped"]
@@ -659,7 +682,8 @@ p3(self) == /\ pc[self] = "p3"
             /\ UNCHANGED << mgrLock, haltLock, thrLock, go, halting, finished, 
                             threads, finishing, started, alive, written, 
                             terminated, badWrite, nctl, closed, playRaised, 
-                            aliveAtClose, openAtClose, tgt, th, tojoin, idx >>
+                            aliveAtClose, openAtClose, faulted, tgt, th, 
+                            tojoin, idx >>
 
 p4(self) == /\ pc[self] = "p4"
             /\ IF halting[self]
@@ -668,8 +692,8 @@ p4(self) == /\ pc[self] = "p4"
             /\ UNCHANGED << mgrLock, haltLock, thrLock, go, halting, finished, 
                             threads, finishing, started, alive, written, 
                             sstate, terminated, badWrite, nctl, closed, 
-                            playRaised, aliveAtClose, openAtClose, tgt, th, 
-                            tojoin, idx >>
+                            playRaised, aliveAtClose, openAtClose, faulted, 
+                            tgt, th, tojoin, idx >>
 
 p5(self) == /\ pc[self] = "p5"
             /\ go[self]
@@ -677,8 +701,8 @@ p5(self) == /\ pc[self] = "p5"
             /\ UNCHANGED << mgrLock, haltLock, thrLock, go, halting, finished, 
                             threads, finishing, started, alive, written, 
                             sstate, terminated, badWrite, nctl, closed, 
-                            playRaised, aliveAtClose, openAtClose, tgt, th, 
-                            tojoin, idx >>
+                            playRaised, aliveAtClose, openAtClose, faulted, 
+                            tgt, th, tojoin, idx >>
 
 p5h(self) == /\ pc[self] = "p5h"
              /\ IF StopWakes /\ halting[self]
@@ -687,8 +711,8 @@ p5h(self) == /\ pc[self] = "p5h"
              /\ UNCHANGED << mgrLock, haltLock, thrLock, go, halting, finished, 
                              threads, finishing, started, alive, written, 
                              sstate, terminated, badWrite, nctl, closed, 
-                             playRaised, aliveAtClose, openAtClose, tgt, th, 
-                             tojoin, idx >>
+                             playRaised, aliveAtClose, openAtClose, faulted, 
+                             tgt, th, tojoin, idx >>
 
 p6(self) == /\ pc[self] = "p6"
             /\ sstate' = [sstate EXCEPT ![self] = "open"]
@@ -696,7 +720,8 @@ p6(self) == /\ pc[self] = "p6"
             /\ UNCHANGED << mgrLock, haltLock, thrLock, go, halting, finished, 
                             threads, finishing, started, alive, written, 
                             terminated, badWrite, nctl, closed, playRaised, 
-                            aliveAtClose, openAtClose, tgt, th, tojoin, idx >>
+                            aliveAtClose, openAtClose, faulted, tgt, th, 
+                            tojoin, idx >>
 
 p8(self) == /\ pc[self] = "p8"
             /\ (thrLock[self]) = -1
@@ -705,7 +730,8 @@ p8(self) == /\ pc[self] = "p8"
             /\ UNCHANGED << mgrLock, haltLock, go, halting, finished, threads, 
                             finishing, started, alive, written, sstate, 
                             terminated, badWrite, nctl, closed, playRaised, 
-                            aliveAtClose, openAtClose, tgt, th, tojoin, idx >>
+                            aliveAtClose, openAtClose, faulted, tgt, th, 
+                            tojoin, idx >>
 
 p9(self) == /\ pc[self] = "p9"
             /\ IF \E i \in DOMAIN threads : threads[i] = self
@@ -714,8 +740,8 @@ p9(self) == /\ pc[self] = "p9"
             /\ UNCHANGED << mgrLock, haltLock, thrLock, go, halting, finished, 
                             threads, finishing, started, alive, written, 
                             sstate, terminated, badWrite, nctl, closed, 
-                            playRaised, aliveAtClose, openAtClose, tgt, th, 
-                            tojoin, idx >>
+                            playRaised, aliveAtClose, openAtClose, faulted, 
+                            tgt, th, tojoin, idx >>
 
 p9c(self) == /\ pc[self] = "p9c"
              /\ sstate' = [sstate EXCEPT ![self] = "closed"]
@@ -723,7 +749,8 @@ p9c(self) == /\ pc[self] = "p9c"
              /\ UNCHANGED << mgrLock, haltLock, thrLock, go, halting, finished, 
                              threads, finishing, started, alive, written, 
                              terminated, badWrite, nctl, closed, playRaised, 
-                             aliveAtClose, openAtClose, tgt, th, tojoin, idx >>
+                             aliveAtClose, openAtClose, faulted, tgt, th, 
+                             tojoin, idx >>
 
 p10(self) == /\ pc[self] = "p10"
              /\ mgrLock = -1
@@ -732,7 +759,8 @@ p10(self) == /\ pc[self] = "p10"
              /\ UNCHANGED << haltLock, thrLock, go, halting, finished, threads, 
                              finishing, started, alive, written, sstate, 
                              terminated, badWrite, nctl, closed, playRaised, 
-                             aliveAtClose, openAtClose, tgt, th, tojoin, idx >>
+                             aliveAtClose, openAtClose, faulted, tgt, th, 
+                             tojoin, idx >>
 
 p11(self) == /\ pc[self] = "p11"
              /\ threads' = SelectSeq(threads, LAMBDA x : x # self)
@@ -744,7 +772,7 @@ p11(self) == /\ pc[self] = "p11"
              /\ UNCHANGED << mgrLock, haltLock, thrLock, go, halting, finished, 
                              started, alive, written, sstate, terminated, 
                              badWrite, nctl, closed, playRaised, aliveAtClose, 
-                             openAtClose, tgt, th, tojoin, idx >>
+                             openAtClose, faulted, tgt, th, tojoin, idx >>
 
 p11r(self) == /\ pc[self] = "p11r"
               /\ mgrLock' = -1
@@ -752,8 +780,8 @@ p11r(self) == /\ pc[self] = "p11r"
               /\ UNCHANGED << haltLock, thrLock, go, halting, finished, 
                               threads, finishing, started, alive, written, 
                               sstate, terminated, badWrite, nctl, closed, 
-                              playRaised, aliveAtClose, openAtClose, tgt, th, 
-                              tojoin, idx >>
+                              playRaised, aliveAtClose, openAtClose, faulted, 
+                              tgt, th, tojoin, idx >>
 
 p12(self) == /\ pc[self] = "p12"
              /\ thrLock' = [thrLock EXCEPT ![self] = -1]
@@ -761,7 +789,8 @@ p12(self) == /\ pc[self] = "p12"
              /\ UNCHANGED << mgrLock, haltLock, go, halting, finished, threads, 
                              finishing, started, alive, written, sstate, 
                              terminated, badWrite, nctl, closed, playRaised, 
-                             aliveAtClose, openAtClose, tgt, th, tojoin, idx >>
+                             aliveAtClose, openAtClose, faulted, tgt, th, 
+                             tojoin, idx >>
 
 p13(self) == /\ pc[self] = "p13"
              /\ alive' = [alive EXCEPT ![self] = FALSE]
@@ -769,7 +798,8 @@ p13(self) == /\ pc[self] = "p13"
              /\ UNCHANGED << mgrLock, haltLock, thrLock, go, halting, finished, 
                              threads, finishing, started, written, sstate, 
                              terminated, badWrite, nctl, closed, playRaised, 
-                             aliveAtClose, openAtClose, tgt, th, tojoin, idx >>
+                             aliveAtClose, openAtClose, faulted, tgt, th, 
+                             tojoin, idx >>
 
 Player(self) == p0(self) \/ p1(self) \/ p1w(self) \/ p1h(self) \/ p2(self)
                    \/ p3(self) \/ p4(self) \/ p5(self) \/ p5h(self)
@@ -811,7 +841,7 @@ Prefix(s, n) == s = [i \in 1..Len(s) |-> i] /\ Len(s) <= n
 \* chunks reach the device in order, each once, nothing invented
 InOrderOnce == \A t \in Players : Prefix(written[t], NChunks[t])
 \* a player that was never stopped and has ended delivered everything
-Complete == \A t \in Players : (started[t] /\ ~alive[t] /\ ~halting[t]) => Len(written[t]) = NChunks[t]
+Complete == \A t \in Players : (started[t] /\ ~alive[t] /\ ~halting[t] /\ ~faulted[t]) => Len(written[t]) = NChunks[t]
 NoWriteWhenNotOpen == ~badWrite
 TerminateAtMostOnce == terminated <= 1
 \* after close() has returned
@@ -820,7 +850,7 @@ TerminatedOnce     == closed => terminated = 1
 NoThreadAlive      == closed => aliveAtClose = {}
 PlayRaisesAfterClose == pc[MainId] = "Done" => playRaised
 \* wait=True waits for all audio
-WaitsForAll == (closed /\ Wait) => \A t \in Started : halting[t] \/ Len(written[t]) = NChunks[t]
+WaitsForAll == (closed /\ Wait) => \A t \in Started : halting[t] \/ faulted[t] \/ Len(written[t]) = NChunks[t]
 
 \* chunk-count vectors for the configurations (cfg files cannot write tuples)
 Chunks22  == <<2, 2>>
